@@ -33,6 +33,9 @@ const peerIDBase = 1000000
 
 var errTest = errors.New("harness forced close")
 
+// StallFor is how long a peer with Tail "stall" keeps still in the middle of a frame.
+var StallFor = 1400 * time.Millisecond
+
 type tracer struct {
 	mu sync.Mutex
 	ev []string
@@ -546,6 +549,30 @@ func Run(sc Scenario) *Outcome {
 		case "garbage":
 			tr.log("pgarbage")
 			peer.Write(bytes.Repeat([]byte{0xFF}, 32))
+		case "stall":
+			// failing-input search: the peer stalls in the MIDDLE of a frame for longer than the read timeout (the
+			// caller has set qnet.TConnReadTimeout to 1 s). The rest of that frame, when it comes, is itself a
+			// complete, valid encoded frame (a nested message) followed by padding; then one more ordinary frame.
+			// None of this may ever reach the inbound channel: the frame was not received as a whole.
+			inner := peerIDBase + 500
+			_, innerRaw := wireSize(enc, nil, inner, 9)
+			body := append(append(bytes.Repeat([]byte{0x55}, 7), innerRaw...), bytes.Repeat([]byte{0x66}, 5)...)
+			var buf bytes.Buffer
+			outer := peerIDBase + len(sc.Peer.Frames)
+			if _, err := enc.WritePacket(&buf, nil, packet.New(int32(outer), uint16(outer), 0, body)); err != nil {
+				return
+			}
+			raw := buf.Bytes()
+			cut := len(raw) - len(body) + 7
+			peer.SetWriteDeadline(time.Now().Add(Deadline))
+			if _, err := peer.Write(raw[:cut]); err != nil {
+				return
+			}
+			time.Sleep(StallFor)
+			peer.SetWriteDeadline(time.Now().Add(Deadline))
+			peer.Write(raw[cut:])
+			_, more := wireSize(enc, nil, outer+1, 5)
+			peer.Write(more)
 		case "badcrc":
 			_, raw := wireSize(enc, newCrypt(sc.Cipher), peerIDBase+len(sc.Peer.Frames), 9)
 			raw[len(raw)-1] ^= 0x40
